@@ -243,6 +243,26 @@ fn main() {
             println!("missing={}", missing);
             println!("first_missing={}", first);
         }
+        // filter_block_offsets <offset> : a filter block is built for data blocks starting at 0, <offset> and <offset> + 4113 (three
+        // distinct keys each, Bloom policy) in the order the table builder uses; the reader is then asked for every key with the
+        // offset of its block
+        "filter_block_offsets" => {
+            let off = num(a[1]) as usize;
+            let blocks: Vec<(usize, Vec<Vec<u8>>)> = [0usize, off, off + 4113]
+                .iter()
+                .enumerate()
+                .map(|(i, o)| (*o, (0..3u8).map(|j| format!("block{}-key{}-{}", i, j, o).into_bytes()).collect()))
+                .collect();
+            let policy: std::sync::Arc<dyn raindb::FilterPolicy> = std::sync::Arc::new(raindb::BloomFilterPolicy::new(10));
+            match v::filter_block_answers(policy, &blocks) {
+                Some(ans) => {
+                    println!("answers={}", ans.len());
+                    println!("rejected={}", ans.iter().filter(|x| !**x).count());
+                    println!("first_rejected={}", ans.iter().position(|x| !*x).map_or(String::new(), |p| format!("key {} of block {}", p % 3, p / 3)));
+                }
+                None => println!("answers=unreadable"),
+            }
+        }
         // table_get targetU:seq shape(c,c,..) uk:seq:op:vv ...   (entries in sorted order; blocks per shape)
         "table_get" => {
             let t = key(a[1]);
